@@ -174,6 +174,20 @@ def boundary_direct(rng):
     return out
 
 
+def share_boundaries(rng, thorough):
+    """hold-out setup on every (size, percentage) pair whose documented share n*(100-p)/100 is an exact
+    integer: the places where any other way of computing the share (rounding, floating point, the complement
+    taken on the validation side) lands on the wrong side"""
+    sizes = range(2, 301) if thorough else list(range(2, 65)) + [75, 100, 125, 150, 200, 250, 300]
+    out = []
+    for n in sizes:
+        for p in range(0, 100):
+            if n * (100 - p) % 100 == 0:
+                out.append({"mode": "D", "n": n, "ds": "", "perc": p, "gap": 1, "seed": rng.randint(1, 2**31 - 1),
+                            "ops": ["hi:0", "hi:1"]})
+    return out
+
+
 def boundary_search(rng):
     """parameters explicitly SET by the user at the ends of their ranges; classification data"""
     out = []
@@ -691,7 +705,7 @@ def run(ck):
     else:
         nd = 6000 if ck.thorough else 420
         ns = 240 if ck.thorough else 36
-        dcases = [gen_direct(rng, k) for k in range(nd)] + boundary_direct(rng)
+        dcases = [gen_direct(rng, k) for k in range(nd)] + boundary_direct(rng) + share_boundaries(rng, ck.thorough)
         scases = [gen_search(rng, k, ck.thorough) for k in range(ns)] + boundary_search(rng)
         tsizes = list(range(0, 2000)) + [rng.randint(2000, 10**7) for _ in range(2000)]
 
